@@ -165,10 +165,11 @@ struct Ctx
 {
     hc::Report rep;
     std::vector<uint64_t> keys; // distinct non-trivial case keys
+    size_t limit = 1u << 23;
     void add_key(uint64_t k)
     {
         keys.push_back(k);
-        if(keys.size() >= (1u << 23)) compact();
+        if(keys.size() >= limit) limit = std::max<size_t>(2 * compact(), 1u << 23);
     }
     size_t compact()
     {
@@ -930,6 +931,7 @@ int main(int argc, char** argv)
         printf("REPLAY %s\n", f.failed() ? (f.sig + ": " + f.what).c_str() : "property holds for this case");
         return ctx.rep.finish();
     }
+    ctx.keys.reserve(opt.thorough ? (20u << 20) : (4u << 20));
     exhaustive(ctx, opt.thorough ? 6 : 5, 3);
     random_part(ctx);
     flush_classes(ctx);
